@@ -88,7 +88,14 @@ THEOREMS = {
          'C09_panic_sites_split_edge', 'C09_panic_sites_split_triangle', 'C09_panic_sites_restore_delaunay', 'C09_panic_sites_add_point',
          'C09_panic_sites_refine', 'C09_wf_push', 'C09_wf_invalidate', 'C09_wf_mark_as_neighbours', 'C09_wf_flip_diagonal',
          'C09_wf_split_edge', 'C09_wf_split_triangle', 'C09_wf_refine', 'C09_neighbour_lookup_in_range',
-         'C09_restore_delaunay_structural_sites', 'C09_mesh_polygon_w3_now_ok', 'C09_wellcond_w5_now_ok'],
+         'C09_restore_delaunay_structural_sites', 'C09_mesh_polygon_w3_now_ok', 'C09_wellcond_w5_now_ok',
+         # Properties/C09_sites.v: certified panic-site enumeration of from_polygon / mesh_polygon
+         'C09_sites_sanitize_no_panic', 'C09_sites_test_point_no_panic', 'C09_sites_push_no_panic', 'C09_sites_close_no_panic', 'C09_sites_is_diagonal', 'C09_sites_mark_neighbourhouds_no_panic',
+         'C09_sites_fp_loop_no_panic', 'C09_sites_get_closed_loop', 'C09_sites_from_polygon_origin', 'C09_sites_from_polygon',
+         'C09_sites_from_polygon_41', 'C09_sites_from_polygon_no_holes', 'C09_sites_refine_wf', 'C09_sites_refine_wf_list',
+         'C09_sites_mesh_polygon_origin', 'C09_sites_mesh_polygon', 'C09_sites_mesh_polygon_41', 'C09_sites_mesh_polygon_no_holes',
+         'C09_sites_api_closed_loop_nonempty', 'C09_sites_api_holes_nonempty', 'C09_sites_api_from_polygon', 'C09_sites_api_mesh_polygon',
+         'C09_sites_41_reachable', 'C09_sites_42_needs_empty_hole'],
  'C18': ['C18_refine_ok_bound', 'C18_mesh_polygon_ok_bound', 'C18_ok_all_valid', 'C18_cached_ratio_is_triangle_ratio'],
 }
 
